@@ -53,7 +53,7 @@ def main():
         if a.replay:
             with open(a.replay) as f:
                 rec = json.load(f)
-            res = mod.check_case(rec['case'])
+            res = core.deep_call(mod.check_case, rec['case'])
             if res:
                 for b, d in res:
                     print('replay fails: bucket=%s\n%s' % (b, d))
@@ -85,7 +85,7 @@ def run(pid, mod, tier, seed, budget, t0):
     for sf in seed_files:
         with open(sf) as f:
             rec = json.load(f)
-        res = mod.check_case(rec['case'])
+        res = core.deep_call(mod.check_case, rec['case'])
         if res:
             for b, d in res:
                 violations.append({'bucket': b, 'case': rec['case'], 'detail': d,
@@ -94,7 +94,7 @@ def run(pid, mod, tier, seed, budget, t0):
             n_seed_pass += 1
     for e in known:
         if e.get('status') == 'fixed' and e.get('repro') is not None:
-            res = mod.check_case(e['repro'])
+            res = core.deep_call(mod.check_case, e['repro'])
             if res:
                 for b, d in res:
                     violations.append({'bucket': b, 'case': e['repro'], 'detail': d,
@@ -105,7 +105,7 @@ def run(pid, mod, tier, seed, budget, t0):
 
     # 2. open known findings: their repro must still fail to be reported as KNOWN
     for e in open_known:
-        res = mod.check_case(e['repro']) if e.get('repro') is not None else []
+        res = core.deep_call(mod.check_case, e['repro']) if e.get('repro') is not None else []
         hit = [b for b, d in res if known_match(mod, e, b)]
         other = [(b, d) for b, d in res if not known_match(mod, e, b)]
         if hit:
